@@ -552,6 +552,7 @@ type Contract struct {
 	Requires   []*Clause
 	Ensures    []*Clause
 	Modifies   []string
+	Reads      []string
 	HasMod     bool
 	Pure       bool
 	Loops      map[int]*LoopSpec
@@ -603,9 +604,9 @@ type ContractFile struct {
 	Consts    map[string]string
 }
 
-var blockKeywords = map[string]bool{"func": true, "extern": true, "ghost": true, "axiom": true, "lemma": true, "group": true, "const": true}
+var blockKeywords = map[string]bool{"functype": true, "func": true, "extern": true, "ghost": true, "axiom": true, "lemma": true, "group": true, "const": true}
 var clauseKeywords = map[string]bool{
-	"requires": true, "ensures": true, "modifies": true, "loop": true, "at": true, "panics_when": true,
+	"requires": true, "ensures": true, "modifies": true, "reads": true, "loop": true, "at": true, "panics_when": true,
 	"prop": true, "pure": true, "uses": true, "abstract": true, "counts": true, "trusted": true, "may_panic": true,
 	"induct": true, "inline": true, "opaque": true, "nosafe": true,
 }
@@ -688,7 +689,10 @@ func readContractFile(path, pkgPath string) (*ContractFile, error) {
 				return nil, fail(rl.line, "bad const")
 			}
 			cf.Consts[strings.TrimSpace(parts[0])] = strings.TrimSpace(parts[1])
-		case "func", "extern":
+		case "func", "extern", "functype":
+			if kw == "functype" {
+				rest = "type:" + rest
+			}
 			cur = &Contract{Key: rest, PkgPath: pkgPath, Extern: kw == "extern", Loops: map[int]*LoopSpec{}, Counts: map[string]string{}, File: path, Line: rl.line, SkipSafe: map[string]bool{}}
 			curLemma = nil
 			if kw == "extern" {
@@ -776,6 +780,12 @@ func readContractFile(path, pkgPath string) (*ContractFile, error) {
 				m = strings.TrimSpace(m)
 				if m != "" && m != "nothing" {
 					cur.Modifies = append(cur.Modifies, m)
+				}
+			}
+		case "reads":
+			for _, m := range strings.Split(rest, ",") {
+				if m = strings.TrimSpace(m); m != "" {
+					cur.Reads = append(cur.Reads, m)
 				}
 			}
 		case "pure":
